@@ -91,9 +91,17 @@ def check(run, P):
     run.rule("C18.pair", "assignment table keyed by a variable fresh in this "
              "invocation, which is what replaces the hoisted subexpression; the "
              "driver assigns once per entry", minimum=5)
+    run.rule("C18.free", "the caller's free-variable collection reaches the classifier "
+             "whole: it is handed on un-rebound through the driver and both "
+             "constructors and stored once", minimum=4)
+    run.rule("C18.table", "the assignment table is created once per top-level call, "
+             "before the traversal, and afterwards only receives entries; every "
+             "variable obtained from new_var_func() is entered into it", minimum=2)
     _stack(run, P)
     _const(run, P)
     _pair(run, P)
+    _free(run, P)
+    _table(run, P)
 
 
 def _stack(run, P):
@@ -313,3 +321,125 @@ def _pair(run, P):
            why="assignments of an earlier call must not leak")
     if n < 4:
         raise AnalysisError("C18.pair: too few sites")
+
+
+def _rebound(fn_node, name):
+    """Statements that bind *name* again inside the function."""
+    out = []
+    for n in ast.walk(fn_node):
+        if isinstance(n, (ast.Assign, ast.AugAssign, ast.AnnAssign)):
+            tg = n.targets if isinstance(n, ast.Assign) else [n.target]
+            for t in tg:
+                for x in ast.walk(t):
+                    if isinstance(x, ast.Name) and x.id == name and isinstance(x.ctx, ast.Store):
+                        out.append(n)
+        elif isinstance(n, (ast.For, ast.comprehension)):
+            for x in ast.walk(n.target):
+                if isinstance(x, ast.Name) and x.id == name:
+                    out.append(n)
+    return out
+
+
+def _free(run, P):
+    why = ("a free variable that is filtered out on the way (because it only occurs in "
+           "call position, say) is classified constant, and a subexpression that "
+           "mentions it is hoisted")
+    d = P.func(f"{MOD}.collapse_constants")
+    fv = d.params[1]
+    ctor = [x for x in ast.walk(d.node) if isinstance(x, ast.Call)
+            and dotted(x.func) == "_ExpressionCollapsingMapper"]
+    ok = len(ctor) == 1 and len(ctor[0].args) == 1 and dotted(ctor[0].args[0]) == fv \
+        and not _rebound(d.node, fv)
+    run.ob("C18.free", d, ctor[0] if ctor else d.node, ok,
+           construct=f"collapse_constants: _ExpressionCollapsingMapper({fv}) with the "
+                     f"parameter as received",
+           why=why)
+    E = P.cls(f"{MOD}._ExpressionCollapsingMapper")
+    ei = E.methods["__init__"]
+    fv = ei.params[1]
+    ctor = [x for x in ast.walk(ei.node) if isinstance(x, ast.Call)
+            and dotted(x.func) == "_ConstantFindingMapper"]
+    ok = len(ctor) == 1 and len(ctor[0].args) == 1 and dotted(ctor[0].args[0]) == fv \
+        and not _rebound(ei.node, fv)
+    run.ob("C18.free", ei, ctor[0] if ctor else ei.node, ok,
+           construct=f"_ExpressionCollapsingMapper.__init__: _ConstantFindingMapper({fv}) "
+                     f"with the parameter as received",
+           why=why)
+    # the classifier is the one built there
+    call = E.methods["__call__"]
+    others = [x for m in E.methods.values() for x in ast.walk(m.node)
+              if isinstance(x, ast.Call) and dotted(x.func) == "_ConstantFindingMapper"
+              and m is not ei]
+    uses = [x for x in ast.walk(call.node) if isinstance(x, ast.Assign)
+            and dotted(x.targets[0]) == "self.is_constant"]
+    attr = None
+    for x in ast.walk(ei.node):
+        if isinstance(x, ast.Assign) and ctor and x.value is ctor[0]:
+            attr = dotted(x.targets[0])
+    ok = not others and len(uses) == 1 and attr is not None \
+        and norm(uses[0].value) == f"{attr}({call.params[1]})"
+    run.ob("C18.free", call, uses[0] if uses else call.node, ok,
+           construct=f"__call__: is_constant = {attr}(expr), the classifier built in __init__, "
+                     f"on the whole expression",
+           why="classification must cover the expression that is rewritten, with the "
+               "caller's free variables")
+    C = P.cls(f"{MOD}._ConstantFindingMapper")
+    ci = C.methods["__init__"]
+    fv = ci.params[1]
+    stores = [(m, x) for m in C.methods.values() for x in ast.walk(m.node)
+              if isinstance(x, (ast.Assign, ast.AugAssign))
+              and any(dotted(t) == "self.free_variables"
+                      for t in (x.targets if isinstance(x, ast.Assign) else [x.target]))]
+    ok = len(stores) == 1 and stores[0][0] is ci and isinstance(stores[0][1], ast.Assign) \
+        and norm(stores[0][1].value) in (fv, f"frozenset({fv})", f"set({fv})", f"list({fv})",
+                                         f"tuple({fv})") and not _rebound(ci.node, fv)
+    run.ob("C18.free", ci, stores[0][1] if stores else ci.node, ok,
+           construct=f"_ConstantFindingMapper: self.free_variables = {fv}, stored once",
+           why=why)
+
+
+def _table(run, P):
+    E = P.cls(f"{MOD}._ExpressionCollapsingMapper")
+    call = E.methods["__call__"]
+    g = CFG(call.node)
+    whole = [(m, x) for m in E.methods.values() for x in ast.walk(m.node)
+             if isinstance(x, (ast.Assign, ast.AugAssign, ast.Delete))
+             and any(dotted(t) == "self.assignments"
+                     for t in (x.targets if isinstance(x, (ast.Assign, ast.Delete)) else [x.target]))]
+    trav = [n for n in g.nodes if n.kind == "stmt" and any(
+        isinstance(x, ast.Call) and dotted(x.func) in ("IdentityMapper.__call__", "super().__call__")
+        for x in walk_fragment(n.ast))]
+    ok = len(whole) == 1 and whole[0][0] is call and isinstance(whole[0][1], ast.Assign) \
+        and norm(whole[0][1].value) in ("{}", "dict()") and bool(trav)
+    if ok:
+        init = [n for n in g.nodes if n.ast is whole[0][1]]
+        ok = bool(init) and not g.always_preceded(trav, init)
+    shrink = [x for m in E.methods.values() for x in ast.walk(m.node)
+              if isinstance(x, ast.Call) and isinstance(x.func, ast.Attribute)
+              and x.func.attr in ("pop", "popitem", "clear") and dotted(x.func.value) == "self.assignments"]
+    run.ob("C18.table", call, whole[0][1] if whole else call.node, ok and not shrink,
+           construct=f"self.assignments is bound {len(whole)} time(s) (= {{}} before the traversal) "
+                     f"and never shrunk",
+           why="replacing or emptying the table after the traversal drops the "
+               "assignments of variables that the rewritten expression, or other "
+               "hoisted expressions, were given: they are used and never assigned")
+    n_new = 0
+    bad = []
+    for m in E.methods.values():
+        for x in ast.walk(m.node):
+            if isinstance(x, ast.Call) and dotted(x.func) == "self.new_var_func":
+                n_new += 1
+                par = [a for a in ast.walk(m.node) if isinstance(a, ast.Assign) and a.value is x
+                       and len(a.targets) == 1 and isinstance(a.targets[0], ast.Name)]
+                v = par[0].targets[0].id if par else None
+                stored = v is not None and any(
+                    isinstance(a, ast.Assign) and any(
+                        isinstance(t, ast.Subscript) and dotted(t.value) == "self.assignments"
+                        and dotted(t.slice) == v for t in a.targets)
+                    for a in ast.walk(m.node))
+                if not stored:
+                    bad.append(m.name)
+    run.ob("C18.table", E.methods["rec"], None, n_new >= 2 and not bad,
+           construct=f"{n_new} calls of new_var_func(); each result is entered with "
+                     f"self.assignments[<it>] = ..." + (f" (not in {sorted(set(bad))})" if bad else ""),
+           why="a variable that is created and not entered is never assigned")
